@@ -511,7 +511,12 @@ where
     #[inline]
     async fn on_heartbeat(&mut self) -> Result<Running, ConnectionInnerError> {
         match &self.connection.local_state() {
-            ConnectionState::Start | ConnectionState::CloseSent => return Ok(Running::Continue),
+            // Nothing may be written after a close, with or without an error
+            ConnectionState::Start
+            | ConnectionState::CloseSent
+            | ConnectionState::ClosePipe
+            | ConnectionState::OpenClosePipe
+            | ConnectionState::Discarding => return Ok(Running::Continue),
             ConnectionState::End => return Ok(Running::Stop),
             _ => {}
         }
